@@ -97,6 +97,8 @@ def make_recording_formatter():
         def mk(name):
             def f(self, value, *a):
                 LAST['used'] = name
+                LAST['arg_type'] = type(value).__name__
+                LAST['arg_repr'] = repr(value)[:60]
                 return RecStr('[%s|%s]' % (name, value))
             return f
         setattr(Rec, name, mk(name))
@@ -115,6 +117,53 @@ def formatting(specs):
         except Exception as e:
             res.append({'raise': type(e).__name__, 'used': LAST.get('used'), 'residual': LAST.get('residual')})
     return res
+
+
+def parents():
+    """a parent given by name or number (a group that is referred to, not held): creation behaves as without parent"""
+    out = []
+    for cond in list(TRUTHY) + list(FALSY) + ['raises']:
+        for parent in ('group-name', 7):
+            MAIN_REPORT.full_clear()
+            spec = {'msg': 'template_ok', 'else': 'none', 'just_raises': False, 'cond': cond}
+            cls = make_class(Feedback, spec)
+            LAST.clear()
+            rec = {'cond': cond, 'parent': repr(parent), 'raised': None}
+            try:
+                cls(x='val', parent=parent)
+            except Exception as e:
+                rec['raised'] = type(e).__name__ + ': ' + str(e)[:80]
+            obj = LAST.get('obj')
+            rec['in_triggered'] = sum(1 for f in MAIN_REPORT.feedback if f is obj)
+            rec['in_untriggered'] = sum(1 for f in MAIN_REPORT.ignored_feedback if f is obj)
+            out.append(rec)
+    return out
+
+
+def formatting_typed():
+    """a declared format hands the FIELD ITSELF (not its string) to the formatter method"""
+    class Loc:
+        line = 5
+
+        def __repr__(self):
+            return 'Loc(5)'
+    fmt = make_recording_formatter()
+    raw = {'n': 7, 'ratio': 2.5, 'pair': [3, 'q'], 'table': {'k': 1}, 'loc': Loc(), 'flag': True, 'none': None, 's': 'text'}
+    out = []
+    for template, want_type, want_repr in (('{n:line}', 'int', '7'), ('{ratio:python_value}', 'float', '2.5'), ('{pair:python_value}', 'list', "[3, 'q']"),
+                                           ('{pair[0]:line}', 'int', '3'), ('{pair[1]:name}', 'str', "'q'"), ('{table:python_value}', 'dict', "{'k': 1}"),
+                                           ('{loc.line:line}', 'int', '5'), ('{loc:python_value}', 'Loc', 'Loc(5)'), ('{flag:python_value}', 'bool', 'True'),
+                                           ('{none:python_value}', 'NoneType', 'None'), ('{s:name}', 'str', "'text'"), ('{n:>6:line}', 'int', '7')):
+        LAST.clear()
+        rec = {'template': template, 'want_type': want_type, 'want_repr': want_repr}
+        try:
+            rec['text'] = template.format(**wrap_fields(fmt, dict(raw)))
+        except Exception as e:
+            rec['raise'] = type(e).__name__ + ': ' + str(e)[:80]
+        rec['arg_type'] = LAST.get('arg_type')
+        rec['arg_repr'] = LAST.get('arg_repr')
+        out.append(rec)
+    return out
 
 
 FIELDS = ['title', 'message_template', 'priority', 'muted']
@@ -235,6 +284,8 @@ def main():
            'repeated': [repeated(s) for s in data.get('repeated', [])],
            'creation': [creation(s) for s in data['creation']],
            'formatting': formatting(data['formatting']),
+           'formatting_typed': formatting_typed() if data.get('typed') else [],
+           'parents': parents() if data.get('typed') else [],
            'overrides': [overrides(c) for c in data['overrides']]}
     json.dump(out, open(sys.argv[1], 'w'), default=str)
 
